@@ -1,7 +1,15 @@
 (* Executable model of rpyc/core/async_.py (AsyncResult), rpyc/lib/__init__.py (Timeout),
-   Connection.serve / poll_all / sync_request / async_request (rpyc/core/protocol.py) and
-   rpyc/utils/helpers.py (timed), over a virtual clock and a scripted channel.
-   Clock values and timeouts are integers (ticks).  No proofs here (see proofs/AsyncP.v). *)
+   Connection.serve / _dispatch / poll_all / sync_request / async_request (rpyc/core/protocol.py),
+   netref.syncreq / asyncreq and rpyc/utils/helpers.py (timed), over a virtual clock and a scripted byte stream.
+   Clock values and timeouts are integers (ticks).  No proofs here (see proofs/AsyncP.v).
+
+   What the model is honest about (each is a finding on the current tree, see props/C15.v):
+   - a frame becomes visible to poll() at its first byte but recv() blocks, without deadline, until it is complete;
+   - the value of a reply is unboxed BEFORE the result looks at its expiry, and unboxing may take time (a proxy of a
+     class not seen before needs a round trip);
+   - callbacks may raise: in the current tree the first raising callback aborts the loop ([iso] = false);
+   - add_callback tests readiness and appends in two steps that a dispatch on another thread can separate
+     ([atom] = false): AddCbTest / AddCbCommit. *)
 From V Require Import lib.Base lib.Sx.
 From Coq Require Import String.
 Open Scope Z_scope.
@@ -31,95 +39,120 @@ Definition timeleft (tt : timeout) (t : Z) : option Z := timeout_timeleft (finit
 Definition never : timeout := mk_timeout 0 None.
 
 (* ------------------------------------------------------------------ state *)
-(* what the scripted channel delivers: the reply to our request (value or exception), an unrelated
-   request whose dispatch keeps the serving thread busy for [d] ticks, or a reply nobody waits for *)
-Inductive msg := Reply (e : bool) (v : Z) | Traffic (d : N) | Stray.
+(* what the scripted stream delivers: the reply to our request (value or exception; materialising the value takes
+   [u] ticks -- 0 for plain values, a round trip for a proxy of an unseen class), an unrelated request whose dispatch
+   keeps the serving thread busy for [d] ticks, or a reply nobody waits for *)
+Inductive msg := Reply (e : bool) (v : Z) (u : N) | Traffic (d : N) | Stray.
 
-Record ar := { ready : bool; is_exc : bool; obj : Z; callbacks : list N; ttl : timeout }.
+(* a callback: its id and whether it raises when run *)
+Record ar := { ready : bool; is_exc : bool; obj : Z; callbacks : list (N * bool); ttl : timeout }.
 
 Record world := {
   now : Z;                         (* virtual clock *)
   res : ar;                        (* the AsyncResult *)
   registered : bool;               (* conn._request_callbacks still holds our seq *)
-  queue : list (Z * msg);          (* channel script: (arrival clock, message), FIFO *)
-  tie : bool;                      (* channel: data arriving exactly at a poll deadline is seen *)
+  queue : list (Z * Z * msg);      (* stream script: (clock of first byte, clock when complete, message), FIFO *)
+  tie : bool;                      (* stream: data arriving exactly at a poll deadline is seen *)
+  iso : bool;                      (* generated fact: a raising callback does not stop the others *)
+  atom : bool;                     (* generated fact: add_callback's test and append are one atomic step w.r.t. __call__ *)
+  pend : option (N * bool);        (* a registration by another thread between its readiness test and its append *)
   log : list (N * Z);              (* callback invocations: (callback id, clock) *)
   g_regs : list (N * Z);           (* ghost: registrations (id, clock) *)
-  g_disp : list (Z * Z * msg);     (* ghost: dispatches (clock at receipt, clock at end, message) *)
+  g_disp : list (Z * Z * Z * msg); (* ghost: dispatches (clock first byte seen, clock frame complete, clock at end, message) *)
   g_got : option Z                 (* ghost: clock at which the result became ready *)
 }.
 
 Definition set_now (w : world) (t : Z) : world :=
-  {| now := t; res := res w; registered := registered w; queue := queue w; tie := tie w; log := log w;
-     g_regs := g_regs w; g_disp := g_disp w; g_got := g_got w |}.
+  {| now := t; res := res w; registered := registered w; queue := queue w; tie := tie w; iso := iso w; atom := atom w; pend := pend w; log := log w; g_regs := g_regs w; g_disp := g_disp w; g_got := g_got w |}.
 Definition set_res (w : world) (a : ar) : world :=
-  {| now := now w; res := a; registered := registered w; queue := queue w; tie := tie w; log := log w;
-     g_regs := g_regs w; g_disp := g_disp w; g_got := g_got w |}.
+  {| now := now w; res := a; registered := registered w; queue := queue w; tie := tie w; iso := iso w; atom := atom w; pend := pend w; log := log w; g_regs := g_regs w; g_disp := g_disp w; g_got := g_got w |}.
 Definition set_registered (w : world) (b : bool) : world :=
-  {| now := now w; res := res w; registered := b; queue := queue w; tie := tie w; log := log w;
-     g_regs := g_regs w; g_disp := g_disp w; g_got := g_got w |}.
-Definition set_queue (w : world) (q : list (Z * msg)) : world :=
-  {| now := now w; res := res w; registered := registered w; queue := q; tie := tie w; log := log w;
-     g_regs := g_regs w; g_disp := g_disp w; g_got := g_got w |}.
+  {| now := now w; res := res w; registered := b; queue := queue w; tie := tie w; iso := iso w; atom := atom w; pend := pend w; log := log w; g_regs := g_regs w; g_disp := g_disp w; g_got := g_got w |}.
+Definition set_queue (w : world) (q : list (Z * Z * msg)) : world :=
+  {| now := now w; res := res w; registered := registered w; queue := q; tie := tie w; iso := iso w; atom := atom w; pend := pend w; log := log w; g_regs := g_regs w; g_disp := g_disp w; g_got := g_got w |}.
+Definition set_pend (w : world) (p : option (N * bool)) : world :=
+  {| now := now w; res := res w; registered := registered w; queue := queue w; tie := tie w; iso := iso w; atom := atom w; pend := p; log := log w; g_regs := g_regs w; g_disp := g_disp w; g_got := g_got w |}.
 Definition set_log (w : world) (l : list (N * Z)) : world :=
-  {| now := now w; res := res w; registered := registered w; queue := queue w; tie := tie w; log := l;
-     g_regs := g_regs w; g_disp := g_disp w; g_got := g_got w |}.
+  {| now := now w; res := res w; registered := registered w; queue := queue w; tie := tie w; iso := iso w; atom := atom w; pend := pend w; log := l; g_regs := g_regs w; g_disp := g_disp w; g_got := g_got w |}.
 Definition add_reg (w : world) (r : N * Z) : world :=
-  {| now := now w; res := res w; registered := registered w; queue := queue w; tie := tie w; log := log w;
-     g_regs := g_regs w ++ [r]; g_disp := g_disp w; g_got := g_got w |}.
-Definition add_disp (w : world) (d : Z * Z * msg) : world :=
-  {| now := now w; res := res w; registered := registered w; queue := queue w; tie := tie w; log := log w;
-     g_regs := g_regs w; g_disp := g_disp w ++ [d]; g_got := g_got w |}.
+  {| now := now w; res := res w; registered := registered w; queue := queue w; tie := tie w; iso := iso w; atom := atom w; pend := pend w; log := log w; g_regs := g_regs w ++ [r]; g_disp := g_disp w; g_got := g_got w |}.
+Definition add_disp (w : world) (d : Z * Z * Z * msg) : world :=
+  {| now := now w; res := res w; registered := registered w; queue := queue w; tie := tie w; iso := iso w; atom := atom w; pend := pend w; log := log w; g_regs := g_regs w; g_disp := g_disp w ++ [d]; g_got := g_got w |}.
 Definition set_got (w : world) (t : Z) : world :=
-  {| now := now w; res := res w; registered := registered w; queue := queue w; tie := tie w; log := log w;
-     g_regs := g_regs w; g_disp := g_disp w; g_got := Some t |}.
+  {| now := now w; res := res w; registered := registered w; queue := queue w; tie := tie w; iso := iso w; atom := atom w; pend := pend w; log := log w; g_regs := g_regs w; g_disp := g_disp w; g_got := Some t |}.
 
 Definition new_ar : ar := {| ready := false; is_exc := false; obj := 0; callbacks := []; ttl := never |}.
-Definition fresh (t0 : Z) (tb : bool) (q : list (Z * msg)) : world :=
-  {| now := t0; res := new_ar; registered := false; queue := q; tie := tb; log := [];
+Definition fresh (t0 : Z) (tb i a : bool) (q : list (Z * Z * msg)) : world :=
+  {| now := t0; res := new_ar; registered := false; queue := q; tie := tb; iso := i; atom := a; pend := None; log := [];
      g_regs := []; g_disp := []; g_got := None |}.
 
+Definition with_callbacks (a : ar) (cbs : list (N * bool)) : ar :=
+  {| ready := ready a; is_exc := is_exc a; obj := obj a; callbacks := cbs; ttl := ttl a |}.
+
 (* ------------------------------------------------------------------ AsyncResult *)
+Inductive obs := ONone | OBool (b : bool) | OVal (v : Z) | ORaise (v : Z) | OTimeout | OHang | OFuel
+               | OCbExc (c : N).    (* the exception of callback c propagated to the caller *)
+
 (* property expired:  not self._is_ready and self._ttl.expired() *)
 Definition ar_expired (a : ar) (t : Z) : bool := negb (ready a) && expired_at (ttl a) t.
 
-(* __call__(is_exc, obj) *)
-Definition ar_call (w : world) (e : bool) (v : Z) : world :=
-  if ar_expired (res w) (now w) then w
+(* running the callback list at clock t: (invocations, the callback whose exception propagates) *)
+Fixpoint run_all (t : Z) (cbs : list (N * bool)) : list (N * Z) * option N :=      (* isolated: all run, first error re-raised *)
+  match cbs with
+  | [] => ([], None)
+  | (c, r) :: rest => let (l, x) := run_all t rest in ((c, t) :: l, if r then Some c else x)
+  end.
+Fixpoint run_until (t : Z) (cbs : list (N * bool)) : list (N * Z) * option N :=    (* the plain loop: stops at the first error *)
+  match cbs with
+  | [] => ([], None)
+  | (c, r) :: rest => if r then ([(c, t)], Some c) else let (l, x) := run_until t rest in ((c, t) :: l, x)
+  end.
+
+(* __call__(is_exc, obj); Some c = callback c's exception leaves __call__ *)
+Definition ar_call (w : world) (e : bool) (v : Z) : world * option N :=
+  if ar_expired (res w) (now w) then (w, None)
   else
     let a := res w in
-    let w1 := set_res w {| ready := true; is_exc := e; obj := v; callbacks := []; ttl := ttl a |} in
-    set_got (set_log w1 (log w ++ map (fun c => (c, now w)) (callbacks a))) (now w).
+    let (l, x) := if iso w then run_all (now w) (callbacks a) else run_until (now w) (callbacks a) in
+    let left := if iso w then [] else match x with None => [] | Some _ => callbacks a end in   (* del callbacks[:] not reached *)
+    let w1 := set_res w {| ready := true; is_exc := e; obj := v; callbacks := left; ttl := ttl a |} in
+    (set_got (set_log w1 (log w ++ l)) (now w), x).
 
-(* add_callback(func) *)
-Definition ar_add_callback (w : world) (c : N) : world :=
+(* add_callback(func) as one step *)
+Definition ar_add_callback (w : world) (c : N) (r : bool) : world * option N :=
   let a := res w in
   let w1 := add_reg w (c, now w) in
-  if ready a then set_log w1 (log w ++ [(c, now w)])
-  else set_res w1 {| ready := ready a; is_exc := is_exc a; obj := obj a; callbacks := callbacks a ++ [c]; ttl := ttl a |}.
+  if ready a then (set_log w1 (log w ++ [(c, now w)]), if r then Some c else None)
+  else (set_res w1 (with_callbacks a (callbacks a ++ [(c, r)])), None).
+(* the append branch alone, taken on the strength of an earlier test *)
+Definition ar_append_callback (w : world) (c : N) (r : bool) : world :=
+  set_res (add_reg w (c, now w)) (with_callbacks (res w) (callbacks (res w) ++ [(c, r)])).
 
 (* set_expiry(timeout):  self._ttl = Timeout(timeout) *)
 Definition ar_set_expiry (w : world) (t : option Z) : world :=
   let a := res w in
   set_res w {| ready := ready a; is_exc := is_exc a; obj := obj a; callbacks := callbacks a; ttl := mk_timeout (now w) t |}.
 
-(* ------------------------------------------------------------------ Connection + channel *)
-(* Connection._dispatch of one received message *)
-Definition dispatch (w : world) (m : msg) : world :=
-  let w1 := match m with
-            | Reply e v => if registered w then ar_call (set_registered w false) e v else w
-            | Traffic d => set_now w (now w + Z.of_N d)
-            | Stray => w
-            end in
-  add_disp w1 (now w, now w1, m).
+(* ------------------------------------------------------------------ Connection + channel + stream *)
+(* Connection._dispatch of one received frame; [r] = clock at which its first byte was seen, now w = clock at which it
+   was complete.  For a reply: obj = self._unbox(args) comes first, then the callback is looked up and called. *)
+Definition dispatch (w : world) (r : Z) (m : msg) : world * option N :=
+  let '(w1, x) := match m with
+                  | Reply e v u =>
+                      let w0 := set_now w (now w + Z.of_N u) in
+                      if registered w then ar_call (set_registered w0 false) e v else (w0, None)
+                  | Traffic d => (set_now w (now w + Z.of_N d), None)
+                  | Stray => (w, None)
+                  end in
+  (add_disp w1 (r, now w, now w1, m), x).
 
-Inductive pollres := PData | PNothing | PHang.
+Inductive pollres := PData | PNothing | PHang | PExc (c : N).
 
-(* channel.poll(timeout): data already there -> at once; otherwise sleep until the next arrival or the
-   deadline, whichever is first (a tie goes to the data iff [tie]); no deadline and nothing scripted: blocks forever *)
+(* channel.poll(timeout) = stream.poll: a first byte already there -> at once; otherwise sleep until the next first byte
+   or the deadline, whichever is first (a tie goes to the data iff [tie]); no deadline and nothing scripted: blocks forever *)
 Definition chan_poll (tt : timeout) (w : world) : world * pollres :=
   match queue w with
-  | (a, _) :: _ =>
+  | (a, _, _) :: _ =>
       if a <=? now w then (w, PData)
       else match timeleft tt (now w) with
            | None => (set_now w a, PData)
@@ -132,29 +165,41 @@ Definition chan_poll (tt : timeout) (w : world) : world * pollres :=
           end
   end.
 
-(* Connection.serve(timeout) on an uncontended connection: poll, recv, dispatch *)
+(* Connection.serve(timeout) on an uncontended connection: poll, recv (blocks until the frame is complete), dispatch *)
 Definition serve_tt (tt : timeout) (w : world) : world * pollres :=
   match chan_poll tt w with
   | (w1, PData) => match queue w1 with
-                   | (_, m) :: q => (dispatch (set_queue w1 q) m, PData)
+                   | (_, c, m) :: q =>
+                       match dispatch (set_queue (set_now w1 (Z.max (now w1) c)) q) (now w1) m with
+                       | (w2, None) => (w2, PData)
+                       | (w2, Some cb) => (w2, PExc cb)
+                       end
                    | [] => (w1, PNothing)
                    end
   | r => r
   end.
 
 (* Connection.poll_all(0): its deadline is "now", so the loop body runs exactly once *)
-Definition poll_all0 (w : world) : world := fst (serve_tt (mk_timeout (now w) (Some 0)) w).
+Definition poll_all0 (w : world) : world * option N :=
+  match serve_tt (mk_timeout (now w) (Some 0)) w with
+  | (w', PExc c) => (w', Some c)
+  | (w', _) => (w', None)
+  end.
 
 (* property ready *)
-Definition q_ready (w : world) : world * bool :=
-  if ready (res w) then (w, true)
-  else if expired_at (ttl (res w)) (now w) then (w, false)
-  else let w' := poll_all0 w in (w', ready (res w')).
+Definition q_ready (w : world) : world * obs :=
+  if ready (res w) then (w, OBool true)
+  else if expired_at (ttl (res w)) (now w) then (w, OBool false)
+  else match poll_all0 w with
+       | (w', Some c) => (w', OCbExc c)
+       | (w', None) => (w', OBool (ready (res w')))
+       end.
 (* property error:  self.ready and self._is_exc *)
-Definition q_error (w : world) : world * bool :=
-  let (w', r) := q_ready w in (w', r && is_exc (res w')).
-
-Inductive obs := ONone | OBool (b : bool) | OVal (v : Z) | ORaise (v : Z) | OTimeout | OHang | OFuel.
+Definition q_error (w : world) : world * obs :=
+  match q_ready w with
+  | (w', OBool r) => (w', OBool (r && is_exc (res w')))
+  | r => r
+  end.
 
 (* wait():  while not self._is_ready and not self._ttl.expired(): self._conn.serve(self._ttl)
             if not self._is_ready: raise AsyncResultTimeout *)
@@ -165,6 +210,7 @@ Fixpoint wait_loop (fuel : nat) (w : world) : world * obs :=
        | O => (w, OFuel)
        | S f => match serve_tt (ttl (res w)) w with
                 | (w', PHang) => (w', OHang)
+                | (w', PExc c) => (w', OCbExc c)
                 | (w', _) => wait_loop f w'
                 end
        end.
@@ -180,18 +226,37 @@ Definition q_value (w : world) : world * obs :=
 
 (* ------------------------------------------------------------------ histories *)
 Inductive action :=
-| Advance (d : N)            (* the caller does something else for d ticks *)
-| AddCb (c : N) | SetExpiry (t : option Z)
+| Advance (d : N)                 (* the caller does something else for d ticks *)
+| AddCb (c : N) (r : bool)        (* add_callback of a callback that raises iff r *)
+| AddCbTest (c : N) (r : bool)    (* another thread enters add_callback and tests readiness ... *)
+| AddCbCommit                     (* ... and later performs the branch it chose *)
+| SetExpiry (t : option Z)
 | QReady | QError | QExpired | QValue | Wait
-| Serve (t : option Z).      (* the caller serves the connection itself: conn.serve(t) *)
+| Serve (t : option Z).           (* the caller serves the connection itself: conn.serve(t) *)
+
+Definition obs_of_exc (x : option N) : obs := match x with Some c => OCbExc c | None => ONone end.
 
 Definition step (w : world) (a : action) : world * obs :=
   match a with
   | Advance d => (set_now w (now w + Z.of_N d), ONone)
-  | AddCb c => (ar_add_callback w c, ONone)
+  | AddCb c r => let (w', x) := ar_add_callback w c r in (w', obs_of_exc x)
+  | AddCbTest c r =>
+      match pend w with
+      | Some _ => (w, ONone)                                  (* one registration in flight at a time *)
+      | None => if atom w then (set_pend w (Some (c, r)), ONone)        (* atomic: takes effect at the commit *)
+                else if ready (res w) then let (w', x) := ar_add_callback w c r in (w', obs_of_exc x)
+                else (set_pend w (Some (c, r)), ONone)         (* saw "not ready": will append, whatever happens meanwhile *)
+      end
+  | AddCbCommit =>
+      match pend w with
+      | None => (w, ONone)
+      | Some (c, r) => let w1 := set_pend w None in
+                       if atom w then let (w', x) := ar_add_callback w1 c r in (w', obs_of_exc x)
+                       else (ar_append_callback w1 c r, ONone)
+      end
   | SetExpiry t => (ar_set_expiry w t, ONone)
-  | QReady => let (w', b) := q_ready w in (w', OBool b)
-  | QError => let (w', b) := q_error w in (w', OBool b)
+  | QReady => q_ready w
+  | QError => q_error w
   | QExpired => (w, OBool (ar_expired (res w) (now w)))
   | QValue => q_value w
   | Wait => ar_wait w
@@ -199,6 +264,7 @@ Definition step (w : world) (a : action) : world * obs :=
                | (w', PData) => (w', OBool true)
                | (w', PNothing) => (w', OBool false)
                | (w', PHang) => (w', OHang)
+               | (w', PExc c) => (w', OCbExc c)
                end
   end.
 
@@ -243,18 +309,53 @@ Inductive stmt :=
 | SPollAll                                 (* self._conn.poll_all() *)
 | SRetGuard (g : guard)                    (* return <g> *)
 | SWait                                    (* self.wait() *)
-| SIfRaiseObjElseRetObj (g : guard).       (* if g: raise self._obj else: return self._obj *)
+| SIfRaiseObjElseRetObj (g : guard)        (* if g: raise self._obj else: return self._obj *)
+(* statements of the repaired form *)
+| SLockAcquire | SLockRelease              (* with self._lock: ... (a return inside releases it) *)
+| STakeCallbacks                           (* callbacks = self._callbacks[:] *)
+| SRunTakenIsolated                        (* error = None; for cb in callbacks: try: cb(self) except Exception as ex: keep the first *)
+| SReraiseFirst                            (* if error is not None: raise error *)
+| SIfNotReadyAppendRet                     (* if not self._is_ready: self._callbacks.append(func); return *)
+| SCallFunc.                               (* func(self) *)
 
-Definition call_prog : list stmt := [SIfRet GExpiredProp None; SSetExc; SSetObj; SSetReady; SRunCallbacks; SDelCallbacks].
+Definition call_prog_current : list stmt := [SIfRet GExpiredProp None; SSetExc; SSetObj; SSetReady; SRunCallbacks; SDelCallbacks].
+Definition call_prog_repaired : list stmt :=
+  [SLockAcquire; SIfRet GExpiredProp None; SSetExc; SSetObj; SSetReady; STakeCallbacks; SDelCallbacks; SLockRelease;
+   SRunTakenIsolated; SReraiseFirst].
+Definition add_callback_prog_current : list stmt := [SIfCallElseAppend GReady].
+Definition add_callback_prog_repaired : list stmt := [SLockAcquire; SIfNotReadyAppendRet; SLockRelease; SCallFunc].
+Definition call_prog (i : bool) : list stmt := if i then call_prog_repaired else call_prog_current.
+Definition add_callback_prog (a : bool) : list stmt := if a then add_callback_prog_repaired else add_callback_prog_current.
 Definition wait_prog : list stmt := [SWhileServe (GAnd (GNot GReady) (GNot GTtlExpired)); SIfRaiseTimeout (GNot GReady)].
-Definition add_callback_prog : list stmt := [SIfCallElseAppend GReady].
 Definition set_expiry_prog : list stmt := [SSetTtl].
 Definition ready_prog : list stmt := [SIfRet GReady (Some true); SIfRet GTtlExpired (Some false); SPollAll; SRetGuard GReady].
 Definition error_prog : list stmt := [SRetGuard (GAnd GReadyProp GIsExc)].
 Definition expired_prog : list stmt := [SRetGuard (GAnd (GNot GReady) GTtlExpired)].
 Definition value_prog : list stmt := [SWait; SIfRaiseObjElseRetObj GIsExc].
 
-(* Connection.sync_request / async_request and timed.__call__ as facts *)
+(* the two facts, read off the programs: callbacks are isolated iff the loop is the try/except one; the registration is
+   atomic iff the readiness write of __call__ and the test-and-append of add_callback both sit inside the lock *)
+Definition stmt_eqb (a b : stmt) : bool :=
+  match a, b with
+  | SRunCallbacks, SRunCallbacks | SRunTakenIsolated, SRunTakenIsolated | SLockAcquire, SLockAcquire
+  | SLockRelease, SLockRelease | SSetReady, SSetReady | SIfNotReadyAppendRet, SIfNotReadyAppendRet
+  | STakeCallbacks, STakeCallbacks | SIfCallElseAppend _, SIfCallElseAppend _ => true
+  | _, _ => false
+  end.
+Definition has (s : stmt) (p : list stmt) : bool := existsb (stmt_eqb s) p.
+Fixpoint locked_part (inside : bool) (p : list stmt) : list stmt :=
+  match p with
+  | [] => []
+  | SLockAcquire :: r => locked_part true r
+  | SLockRelease :: r => locked_part false r
+  | s :: r => if inside then s :: locked_part inside r else locked_part inside r
+  end.
+Definition isolated_of (callp : list stmt) : bool := has SRunTakenIsolated callp && negb (has SRunCallbacks callp).
+Definition atomic_of (callp addp : list stmt) : bool :=
+  has SSetReady (locked_part false callp) && has STakeCallbacks (locked_part false callp) &&
+  has SIfNotReadyAppendRet (locked_part false addp) && negb (has (SIfCallElseAppend GReady) addp).
+
+(* Connection.sync_request / async_request, netref.syncreq / asyncreq and timed.__call__ as facts *)
 Inductive cstmt :=
 | CReadConfigTimeout (key : string)        (* timeout = self._config[key] *)
 | CNewResult                               (* res = AsyncResult(self) *)
@@ -264,71 +365,99 @@ Inductive cstmt :=
 | CAsyncRequestWithTimeout                 (* self.async_request(handler, ..., timeout=timeout) *)
 | CAsyncProxyCall                          (* res = self.proxy( *args, **kwargs ) *)
 | CReturnValue                             (* return <that>.value *)
-| CReturnRes.                              (* return res *)
+| CReturnRes                               (* return res *)
+| CGetConn                                 (* conn = object.__getattribute__(proxy, "____conn__") *)
+| CReturnConnSyncRequest                   (* return conn.sync_request(handler, proxy, ... ) *)
+| CReturnConnAsyncRequest.                 (* return conn.async_request(handler, proxy, ... )  -- no timeout *)
 Definition async_request_prog : list cstmt := [CNewResult; CSendRequest; CIfTimeoutNotNoneSetExpiry; CReturnRes].
 Definition sync_request_prog : list cstmt := [CReadConfigTimeout "sync_request_timeout"; CAsyncRequestWithTimeout; CReturnValue].
 Definition timed_call_prog : list cstmt := [CAsyncProxyCall; CSetExpiryOwn; CReturnRes].
+Definition syncreq_prog : list cstmt := [CGetConn; CReturnConnSyncRequest].
+Definition asyncreq_prog : list cstmt := [CGetConn; CReturnConnAsyncRequest].
+(* Connection._dispatch, reply branch: the value is unboxed before the callback is looked up and called *)
+Definition dispatch_reply_order : list string := ["obj = self._unbox(args)"; "self._seq_request_callback(msg, seq, False, obj)"]%string.
 
-Record args := { a_exc : bool; a_obj : Z; a_func : N; a_timeout : option Z }.
+Record args := { a_exc : bool; a_obj : Z; a_func : N; a_raises : bool; a_timeout : option Z }.
+Record locals := { l_taken : list (N * bool); l_err : option N }.
 
-Fixpoint eval_guard (g : guard) (w : world) : world * bool :=
+Definition gres := (bool + N)%type.      (* value of a guard, or the callback whose exception it let through *)
+Fixpoint eval_guard (g : guard) (w : world) : world * gres :=
   match g with
-  | GReady => (w, ready (res w))
-  | GIsExc => (w, is_exc (res w))
-  | GTtlExpired => (w, expired_at (ttl (res w)) (now w))
-  | GExpiredProp => (w, ar_expired (res w) (now w))
-  | GReadyProp => q_ready w
-  | GNot g => let (w', b) := eval_guard g w in (w', negb b)
-  | GAnd a b => let (w', x) := eval_guard a w in if x then eval_guard b w' else (w', false)
+  | GReady => (w, inl (ready (res w)))
+  | GIsExc => (w, inl (is_exc (res w)))
+  | GTtlExpired => (w, inl (expired_at (ttl (res w)) (now w)))
+  | GExpiredProp => (w, inl (ar_expired (res w) (now w)))
+  | GReadyProp => match q_ready w with (w', OBool b) => (w', inl b) | (w', OCbExc c) => (w', inr c) | (w', _) => (w', inl false) end
+  | GNot g => match eval_guard g w with (w', inl b) => (w', inl (negb b)) | r => r end
+  | GAnd a b => match eval_guard a w with (w', inl true) => eval_guard b w' | r => r end
   end.
 
 Definition upd_ar (w : world) (f : ar -> ar) : world := set_res w (f (res w)).
 
 Fixpoint while_serve (fuel : nat) (g : guard) (w : world) : world * option obs :=
-  let (w0, b) := eval_guard g w in
-  if b then match fuel with
-            | O => (w0, Some OFuel)
-            | S f => match serve_tt (ttl (res w0)) w0 with
-                     | (w', PHang) => (w', Some OHang)
-                     | (w', _) => while_serve f g w'
-                     end
-            end
-  else (w0, None).
+  match eval_guard g w with
+  | (w0, inr c) => (w0, Some (OCbExc c))
+  | (w0, inl false) => (w0, None)
+  | (w0, inl true) =>
+      match fuel with
+      | O => (w0, Some OFuel)
+      | S f => match serve_tt (ttl (res w0)) w0 with
+               | (w', PHang) => (w', Some OHang)
+               | (w', PExc c) => (w', Some (OCbExc c))
+               | (w', _) => while_serve f g w'
+               end
+      end
+  end.
+
+(* a guard's value decides; an exception inside it leaves the method *)
+Definition on_guard (g : guard) (w : world) (k : world -> bool -> world * option obs) : world * option obs :=
+  match eval_guard g w with (w', inl b) => k w' b | (w', inr c) => (w', Some (OCbExc c)) end.
 
 (* one statement: Some o = the method returned / raised with observation o *)
-Definition exec1 (s : stmt) (x : args) (w : world) : world * option obs :=
+Definition exec1 (s : stmt) (x : args) (l : locals) (w : world) : locals * (world * option obs) :=
   match s with
-  | SIfRet g r => let (w', b) := eval_guard g w in
-                  (w', if b then Some (match r with Some v => OBool v | None => ONone end) else None)
-  | SSetExc => (upd_ar w (fun a => {| ready := ready a; is_exc := a_exc x; obj := obj a; callbacks := callbacks a; ttl := ttl a |}), None)
-  | SSetObj => (upd_ar w (fun a => {| ready := ready a; is_exc := is_exc a; obj := a_obj x; callbacks := callbacks a; ttl := ttl a |}), None)
-  | SSetReady => (set_got (upd_ar w (fun a => {| ready := true; is_exc := is_exc a; obj := obj a; callbacks := callbacks a; ttl := ttl a |})) (now w), None)
-  | SRunCallbacks => (set_log w (log w ++ map (fun c => (c, now w)) (callbacks (res w))), None)
-  | SDelCallbacks => (upd_ar w (fun a => {| ready := ready a; is_exc := is_exc a; obj := obj a; callbacks := []; ttl := ttl a |}), None)
-  | SWhileServe g => while_serve (wait_fuel w) g w
-  | SIfRaiseTimeout g => let (w', b) := eval_guard g w in (w', if b then Some OTimeout else None)
+  | SIfRet g r => (l, on_guard g w (fun w' b => (w', if b then Some (match r with Some v => OBool v | None => ONone end) else None)))
+  | SSetExc => (l, (upd_ar w (fun a => {| ready := ready a; is_exc := a_exc x; obj := obj a; callbacks := callbacks a; ttl := ttl a |}), None))
+  | SSetObj => (l, (upd_ar w (fun a => {| ready := ready a; is_exc := is_exc a; obj := a_obj x; callbacks := callbacks a; ttl := ttl a |}), None))
+  | SSetReady => (l, (set_got (upd_ar w (fun a => {| ready := true; is_exc := is_exc a; obj := obj a; callbacks := callbacks a; ttl := ttl a |})) (now w), None))
+  | SRunCallbacks => let (lg, e) := run_until (now w) (callbacks (res w)) in
+                     (l, (set_log w (log w ++ lg), match e with Some c => Some (OCbExc c) | None => None end))
+  | SDelCallbacks => (l, (upd_ar w (fun a => with_callbacks a []), None))
+  | SWhileServe g => (l, while_serve (wait_fuel w) g w)
+  | SIfRaiseTimeout g => (l, on_guard g w (fun w' b => (w', if b then Some OTimeout else None)))
   | SIfCallElseAppend g =>
-      let (w', b) := eval_guard g w in
-      let w1 := add_reg w' (a_func x, now w') in
-      (if b then set_log w1 (log w' ++ [(a_func x, now w')])
-       else upd_ar w1 (fun a => {| ready := ready a; is_exc := is_exc a; obj := obj a; callbacks := callbacks a ++ [a_func x]; ttl := ttl a |}), None)
-  | SSetTtl => (upd_ar w (fun a => {| ready := ready a; is_exc := is_exc a; obj := obj a; callbacks := callbacks a; ttl := mk_timeout (now w) (a_timeout x) |}), None)
-  | SPollAll => (poll_all0 w, None)
-  | SRetGuard g => let (w', b) := eval_guard g w in (w', Some (OBool b))
-  | SWait => match ar_wait w with (w', ONone) => (w', None) | (w', o) => (w', Some o) end
-  | SIfRaiseObjElseRetObj g => let (w', b) := eval_guard g w in (w', Some (if b then ORaise (obj (res w')) else OVal (obj (res w'))))
+      (l, on_guard g w (fun w' b =>
+        let w1 := add_reg w' (a_func x, now w') in
+        if b then (set_log w1 (log w' ++ [(a_func x, now w')]), if a_raises x then Some (OCbExc (a_func x)) else None)
+        else (upd_ar w1 (fun a => with_callbacks a (callbacks a ++ [(a_func x, a_raises x)])), None)))
+  | SSetTtl => (l, (upd_ar w (fun a => {| ready := ready a; is_exc := is_exc a; obj := obj a; callbacks := callbacks a; ttl := mk_timeout (now w) (a_timeout x) |}), None))
+  | SPollAll => match poll_all0 w with (w', Some c) => (l, (w', Some (OCbExc c))) | (w', None) => (l, (w', None)) end
+  | SRetGuard g => (l, on_guard g w (fun w' b => (w', Some (OBool b))))
+  | SWait => (l, match ar_wait w with (w', ONone) => (w', None) | (w', o) => (w', Some o) end)
+  | SIfRaiseObjElseRetObj g => (l, on_guard g w (fun w' b => (w', Some (if b then ORaise (obj (res w')) else OVal (obj (res w'))))))
+  | SLockAcquire | SLockRelease => (l, (w, None))
+  | STakeCallbacks => ({| l_taken := callbacks (res w); l_err := l_err l |}, (w, None))
+  | SRunTakenIsolated => let (lg, e) := run_all (now w) (l_taken l) in
+                         ({| l_taken := l_taken l; l_err := e |}, (set_log w (log w ++ lg), None))
+  | SReraiseFirst => (l, (w, match l_err l with Some c => Some (OCbExc c) | None => None end))
+  | SIfNotReadyAppendRet =>
+      (l, if ready (res w) then (w, None)
+          else (upd_ar (add_reg w (a_func x, now w)) (fun a => with_callbacks a (callbacks a ++ [(a_func x, a_raises x)])), Some ONone))
+  | SCallFunc => (l, (set_log (add_reg w (a_func x, now w)) (log w ++ [(a_func x, now w)]),
+                      if a_raises x then Some (OCbExc (a_func x)) else None))
   end.
 
-Fixpoint exec (p : list stmt) (x : args) (w : world) : world * obs :=
+Fixpoint exec_l (p : list stmt) (x : args) (l : locals) (w : world) : world * obs :=
   match p with
   | [] => (w, ONone)
-  | s :: rest => match exec1 s x w with
-                 | (w', Some o) => (w', o)
-                 | (w', None) => exec rest x w'
+  | s :: rest => match exec1 s x l w with
+                 | (_, (w', Some o)) => (w', o)
+                 | (l', (w', None)) => exec_l rest x l' w'
                  end
   end.
+Definition exec (p : list stmt) (x : args) (w : world) : world * obs := exec_l p x {| l_taken := []; l_err := None |} w.
 
-(* interpretation of the Connection.async_request / sync_request / timed.__call__ skeletons;
+(* interpretation of the Connection.async_request / sync_request / netref.syncreq / asyncreq / timed.__call__ skeletons;
    [cfg] is the connection's configuration, [own] the timed object's self.timeout, [c_timeout] the local variable *)
 Record cframe := { c_w : world; c_timeout : option Z; c_ret : option obs }.
 Definition cexec1 (cfg : string -> option Z) (own : option Z) (sd : N) (s : cstmt) (f : cframe) : cframe :=
@@ -347,51 +476,57 @@ Definition cexec1 (cfg : string -> option Z) (own : option Z) (sd : N) (s : cstm
   | CAsyncProxyCall => {| c_w := async_request None sd w; c_timeout := c_timeout f; c_ret := c_ret f |}
   | CReturnValue => let (w', o) := q_value w in {| c_w := w'; c_timeout := c_timeout f; c_ret := Some o |}
   | CReturnRes => f
+  | CGetConn => f
+  | CReturnConnSyncRequest => let (w', o) := sync_request (cfg "sync_request_timeout"%string) sd w in
+                              {| c_w := w'; c_timeout := c_timeout f; c_ret := Some o |}
+  | CReturnConnAsyncRequest => {| c_w := async_request None sd w; c_timeout := c_timeout f; c_ret := c_ret f |}
   end.
 Definition cexec (cfg : string -> option Z) (own : option Z) (sd : N) (p : list cstmt) (f : cframe) : cframe :=
   fold_left (fun f s => cexec1 cfg own sd s f) p f.
 
 (* ------------------------------------------------------------------ harness interface *)
 Definition opt_of_sx (x : sx) : option Z := match x with SL [v] => Some (sx_z v) | _ => None end.
-Definition msg_of_sx (x : sx) : Z * msg :=
+Definition msg_of_sx (x : sx) : Z * Z * msg :=
   match x with
-  | SL [a; k; p; q] =>
-      (sx_z a, if sx_z k =? 0 then Reply (sx_bool p) (sx_z q) else if sx_z k =? 1 then Traffic (sx_n p) else Stray)
-  | _ => (0, Stray)
+  | SL [a; c; k; p; q; u] =>
+      (sx_z a, sx_z c, if sx_z k =? 0 then Reply (sx_bool p) (sx_z q) (sx_n u) else if sx_z k =? 1 then Traffic (sx_n p) else Stray)
+  | _ => (0, 0, Stray)
   end.
 Definition action_of_sx (x : sx) : action :=
   match x with
-  | SL [k; p] =>
+  | SL [k; p; r] =>
       let k := sx_z k in
-      if k =? 0 then Advance (sx_n p) else if k =? 1 then AddCb (sx_n p) else if k =? 2 then SetExpiry (opt_of_sx p)
+      if k =? 0 then Advance (sx_n p) else if k =? 1 then AddCb (sx_n p) (sx_bool r) else if k =? 2 then SetExpiry (opt_of_sx p)
       else if k =? 3 then QReady else if k =? 4 then QError else if k =? 5 then QExpired else if k =? 6 then QValue
-      else if k =? 7 then Wait else Serve (opt_of_sx p)
+      else if k =? 7 then Wait else if k =? 8 then Serve (opt_of_sx p)
+      else if k =? 9 then AddCbTest (sx_n p) (sx_bool r) else AddCbCommit
   | _ => Advance 0
   end.
 Definition sx_of_obs (o : obs) : sx :=
   match o with
   | ONone => SL [SI 0] | OBool b => SL [SI 1; sbool b] | OVal v => SL [SI 2; SI v] | ORaise v => SL [SI 3; SI v]
-  | OTimeout => SL [SI 4] | OHang => SL [SI 5] | OFuel => SL [SI 6]
+  | OTimeout => SL [SI 4] | OHang => SL [SI 5] | OFuel => SL [SI 6] | OCbExc c => SL [SI 7; sN c]
   end.
 Definition sx_of_world (w : world) : sx :=
   SL [SL (map (fun p => SL [sN (fst p); SI (snd p)]) (log w));
       sbool (ready (res w)); sbool (is_exc (res w)); SI (obj (res w));
-      SL (map sN (callbacks (res w)));
+      SL (map (fun p => sN (fst p)) (callbacks (res w)));
       sbool (finite (ttl (res w))); SI (if finite (ttl (res w)) then tmax (ttl (res w)) else 0);
       sbool (registered w); snat (List.length (queue w)); SI (now w)].
 Definition sx_of_trace (tr : list (obs * Z)) : sx := SL (map (fun p => SL [sx_of_obs (fst p); SI (snd p)]) tr).
 
 (* cases:
-   ("hist" mode tie t0 timeout send_dur queue actions)  mode 0 = async_request(timeout=..), 1 = sync_request with
-                                                         config timeout, 2 = timed(proxy, timeout)(..)
+   ("hist" (mode tie iso atom) t0 timeout send_dur queue actions)
+        mode 0 = async_request(timeout=..), 1 = conn.sync_request with config timeout, 2 = timed(proxy, timeout)(..),
+        3 = a synchronous operation on a proxy (netref.syncreq) with config timeout
    ("tmo" timeout t_create t_query)                      the Timeout class alone *)
 Definition run_async (x : sx) : sx :=
   match x with
-  | SL [op; mode; tb; t0; tmo; sd; q; acts] =>
+  | SL [op; SL [mode; tb; i; a]; t0; tmo; sd; q; acts] =>
       if is_tag "hist" op then
-        let w0 := fresh (sx_z t0) (sx_bool tb) (map msg_of_sx (sx_l q)) in
+        let w0 := fresh (sx_z t0) (sx_bool tb) (sx_bool i) (sx_bool a) (map msg_of_sx (sx_l q)) in
         let t := opt_of_sx tmo in
-        if sx_z mode =? 1 then
+        if (sx_z mode =? 1) || (sx_z mode =? 3) then
           let (w1, o) := sync_request t (sx_n sd) w0 in
           SL [SL [SL [sx_of_obs o; SI (now w1)]]; sx_of_world w1]
         else
